@@ -119,13 +119,6 @@ Proof.
   destruct d as [|x|[|]]; try congruence; destruct c as [|y|[|]]; try congruence; xunf;
   cbn -[Qle_bool Qeq_bool Qmult Qplus Qminus Qopp Qabs]; qcmp; cbn; try reflexivity; try lra; exfalso; lra.
 Qed.
-(* == and != are NOT complementary at equal infinities: |inf - inf| is NaN and both comparisons are false *)
-Lemma eq_ne_inf_refuted :
-  exists d c, d <> XNaN /\ c <> XNaN /\
-    gen_comparative_discretise d c (MStr "==") (XFin 0) = Some (XFin 0) /\
-    gen_comparative_discretise d c (MStr "!=") (XFin 0) = Some (XFin 0).
-Proof. exists (XInf true), (XInf true). repeat split; discriminate || reflexivity. Qed.
-
 (* the tolerance guard: None -> 0, a negative number -> ValueError, anything else unchanged *)
 Lemma tolerance_guard_spec (t : option xv) :
   gen_discretise_tolerance t =
